@@ -54,6 +54,10 @@ def gen_graph(rng, n_ns=2, n_nodes=6, hostile=True, with_values=True, dangling=T
     for i in range(n_nodes):
         uri = rng.choice(g.uris); t = rng.choice("iiissgb")
         k = (uri, t, rident(rng, t, i) if hostile else (str(1000 + i) if t == "i" else "S%d" % i))
+        if keys and rng.random() < 0.12:
+            # a twin: the identifier text of an earlier node of the same namespace under another identifier type (i=5001 and s=5001, s=X and g=X are different nodes)
+            pu, pt, pid = rng.choice(keys)
+            k = (pu, rng.choice([x for x in ("s", "g", "b") + (("i",) if pid.isdigit() and not pid.startswith("0") else ()) if x != pt]), pid); uri = pu
         if k in g.nodes: continue
         cls = rng.choice(docs.CLASSES)
         name = rng.choice(NAMES) if hostile else "N%d" % i
@@ -85,10 +89,18 @@ def gen_graph(rng, n_ns=2, n_nodes=6, hostile=True, with_values=True, dangling=T
         if not keys: break
         s = rng.choice(keys); t = rng.choice(allk if rng.random() < 0.8 else keys)
         if dangling and rng.random() < 0.08: t = (rng.choice(g.uris + [UA]), "i", str(9000 + rng.randint(0, 5 if rng.random() < 0.6 else 50)))
+        elif dangling and rng.random() < 0.04:     # undefined, but a node with the same identifier text and another identifier type is defined
+            pu, pt, pid = rng.choice(keys); t = (pu, rng.choice([x for x in "sgb" if x != pt]), pid)
+            if t in g.nodes: t = rng.choice(allk)
         ty = rng.choice(reftypes)
         if rng.random() < 0.5: s, t = t, s
         g.refs.append((s, t, ty))
     if rng.random() < 0.3 and keys: k = rng.choice(keys); g.refs.append((k, k, rng.choice(reftypes)))      # self reference
+    g.mutual = []
+    if rng.random() < 0.35 and len(keys) >= 1 and len(allk) >= 2:
+        # a two-cycle of one reference type; the serialiser may declare both triples on the same node (one forward, one inverse, same type and same other node)
+        a = rng.choice(keys); b = rng.choice([x for x in allk if x != a]); ty = rng.choice(reftypes)
+        g.refs.append((a, b, ty)); g.refs.append((b, a, ty)); g.mutual.append((len(g.refs) - 2, len(g.refs) - 1))
     if rng.random() < 0.3 and g.refs: g.refs.append(rng.choice(g.refs))                                       # declared twice
     for u in g.uris:
         g.models[u] = dict(version=rng.choice(["1.0.0", "2.1", None]), pubdate=rng.choice(["2020-01-01T00:00:00Z", None]),
@@ -109,7 +121,10 @@ def serialise(g, rng, base_name="Opc.Ua.NodeSet2.xml", placement=None, file_name
     out = []
     uris_docs = ([UA] if with_base else []) + list(g.uris)
     names = file_names or {}
-    if placement is None: placement = [rng.choice(["src", "trg", "both"]) for _ in g.refs]
+    if placement is None:
+        placement = [rng.choice(["src", "trg", "both"]) for _ in g.refs]
+        for i, j in getattr(g, "mutual", []):
+            if i < len(placement) and j < len(placement) and rng.random() < 0.7: placement[i], placement[j] = rng.choice([("src", "trg"), ("both", "both"), ("trg", "src")])
     parts = []
     for U in uris_docs:
         mine_all = [k for k in g.order if k[0] == U]
@@ -139,6 +154,9 @@ def serialise(g, rng, base_name="Opc.Ua.NodeSet2.xml", placement=None, file_name
         if rng.random() < 0.3:                     # a declared but unused namespace
             extra = [u for u in g.uris if u not in used]
             if extra: local_rest.insert(rng.randint(0, len(local_rest)), rng.choice(extra))
+        if len(g.uris) >= 9 and rng.random() < 0.75:   # a wide graph: the document carries the whole table, so local indices have two digits
+            local_rest = local_rest + [u for u in g.uris if u not in local_rest]
+            if perm: rng.shuffle(local_rest)
         local = [UA] + local_rest
         alias_of = {}
         alias_list = []
@@ -208,6 +226,11 @@ def add_enums(g, rng, n_types=None, n_vars=None, flavours=None, kinds=None, plac
         g.nodes[tk] = dict(cls="UADataType", bname=(uri, name), display=name, desc=None, attrs={}, value=None); g.order.append(tk)
         g.refs.append((enum_root, tk, (UA, "i", "45")))
         mapping = None
+        if flavour != "none" and rng.random() < 0.4:
+            # another property of the type, without a Value, referenced BEFORE the definition property (NodeVersion, a documentation property, ...)
+            xk = (uri, "i", str(3300 + i))
+            g.nodes[xk] = dict(cls="UAVariable", bname=(UA, "NodeVersion"), display="NodeVersion", desc=None, attrs={"DataType": (UA, "i", "12")}, value=None); g.order.append(xk)
+            g.refs.append((tk, xk, (UA, "i", "46")))
         if flavour == "strings":
             texts = [rng.choice(["Off", "On", "Auto", "a b", "é"]) + str(j) for j in range(rng.randint(1, 4))]
             # a reserved number: an entry without text in the middle of the array (the numbers of EnumStrings are positions)
